@@ -1074,10 +1074,17 @@ func injectDirsCmd(args []string) error {
 				goNames = append(goNames, v.Ents[i].Conc.Name)
 			}
 		}
+		used := map[string]bool{}
+		for i := range v.Ents {
+			used[v.Ents[i].Conc.Name] = true
+		}
 		for i := range v.Ents {
 			if v.Ents[i].Kind == "nongo" && len(goNames) > 0 && r.Intn(2) == 0 {
 				sfx := []string{".tmp", ".bak", "~", ".orig", ".new", ".swp", ".1", ".tmp"}[r.Intn(8)]
-				v.Ents[i].Conc.Name = goNames[r.Intn(len(goNames))] + sfx
+				if n := goNames[r.Intn(len(goNames))] + sfx; !used[n] { // names within a directory stay distinct
+					used[n] = true
+					v.Ents[i].Conc.Name = n
+				}
 			}
 		}
 		if v.Pattern == "" {
